@@ -167,6 +167,8 @@ def _analyse(case, res, pm, R, matcher, sched_model, span, subst):
         # (6) tree of the result
         cand = p0["do"][-1]["out"] if p0 and p0["do"] else source
         rolled_back = bool(S) and cand is not None and not sched_model.valid(cand)
+        if bool(S) and cand is not None and not rolled_back and new == source and sched_model.compiles(source) and not sched_model.compiles(cand):
+            rolled_back = True  # the candidate parses but is not code Python will run, the input was: rolled back under the same clause
         if rolled_back:
             res["rolled_back"] += 1
             if new != source:
